@@ -10,6 +10,7 @@ import common
 from common import MachineryError
 
 LEVEL = "exploration"
+unconfirmed = []
 
 SPECIAL = {"UNTERMSTR": b'"s', "UNTERMCHAR": b"'", "LCOM": b"//c\n", "HCOM": b"#c\n", "ZCOM": "注: c\n".encode(), "WATCOM": b";;c\n", "NL": b"\n", "ILL01": b"\x01",
            "ILLFF": b"\xff", "DIRECTIVE": b"#wa:build x\n"}
@@ -87,7 +88,25 @@ def run_crash(h, cases):
     return results, anomalies
 
 
+def confirm_hang(h, c, entry):
+    """a reported hang counts only if the same call, alone in a fresh process, does not return within 90 s either"""
+    inp = json.dumps({"id": 0, "name": c["name"], "hex": c["src"].hex()}) + "\n"
+    try:
+        p = subprocess.run([h, "crash", entry], input=inp, capture_output=True, text=True, timeout=90)
+    except subprocess.TimeoutExpired:
+        return True
+    for l in p.stdout.splitlines():
+        try:
+            r = json.loads(l)
+        except ValueError:
+            continue
+        if r.get("entry") == entry:
+            return r["outcome"] == "hang"
+    return p.returncode != 0
+
+
 def run(chk):
+    unconfirmed.clear()
     h = common.go_build("front")
     thorough = chk.tier == "thorough"
     chk.assume("inputs: every token string of length <= 2 over the four alphabets of WaFront.tla%s, each spaced, tight, repeated 12 times and inside a well-formed frame (function body, global initialiser, import group on one line and on several lines, module, function of a module, text section), under the file name of its language "
@@ -141,6 +160,10 @@ def run(chk):
             for r in rs:
                 calls += 1
                 outcomes[r["outcome"]] = outcomes.get(r["outcome"], 0) + 1
+                if r["outcome"] == "hang" and not confirm_hang(h, c, r["entry"]):
+                    # the watchdog fired but the call returns when it is run again on its own: the machine was loaded
+                    unconfirmed.append((c["name"], r["entry"]))
+                    continue
                 if r["outcome"] in ("panic", "hang"):
                     chk.report("C08:%s:%s:%s:%s" % (r["outcome"], r["entry"], c["lang"], norm(r["detail"])),
                                "%s on %r (%s, %s of %s) %s%s" % (r["entry"], c["src"][:80], c["name"], c["variant"], c["toks"], "panics: " if r["outcome"] == "panic" else "does not return (10 s of CPU time / 120 s of wall time)", r["detail"][:200]),
@@ -152,6 +175,9 @@ def run(chk):
     chk.cov["entry_point_calls"] = calls
     chk.cov["outcomes"] = outcomes
     chk.cov["slowest_call_us"] = slowest
+    chk.cov["watchdog_firings_not_reproduced"] = len(unconfirmed)
+    if unconfirmed:
+        chk.notes.append("%d watchdog firings were not reproduced when the call was run again on its own (machine load): %s" % (len(unconfirmed), unconfirmed[:5]))
     chk.cov["dispatch_rows"] = len(disp)
     chk.cov["distinct_nontrivial"] = len(cases) + len(disp)
     chk.cov["rule"] = ("one evaluation = one entry point (FormatCode, GetCodeSyntax, ParseFile, BuildFile, WAT parser, assembly parser) called on one generated source text with "
